@@ -62,6 +62,8 @@ def run_case(case: dict):
     from . import drive
 
     seed = case.get("seed", 0)
+    if case.get("suite"):
+        return run_suite_case(case)
     beh = _behaviour(case.get("behaviour", {}), seed)
     pol = _policy(case.get("policy", {}), seed)
     ctx = drive.execute(case["scn"], beh, pol, run_kw=case.get("run_kw"), world_kw=case.get("world_kw"),
@@ -83,6 +85,39 @@ def run_case(case: dict):
     return res
 
 
+def run_suite_case(case):
+    """One of the repository's own scenarios (tests/scenarios) with its own simulators under a controlled schedule."""
+    from . import suite
+
+    su = case["suite"]
+    pol = _policy(case.get("policy", {}), case.get("seed", 0))
+    ctx, scn = suite.execute_suite(su["name"], su["path"], su["until"], pol, lazy=su.get("lazy", True), cache=su.get("cache", True))
+    if scn is None:
+        ctx.outcome = dict(ctx.outcome, phase="build")
+        scn = ctx.scn
+        if not ctx.trace or ctx.trace[-1]["k"] != "END":
+            ctx.record({"k": "END", "r": ctx.outcome["r"], "cat": "other", "names": [], "closed": True, "pend": 0, "pendnames": []})
+    case = dict(case, scn=scn)
+    return {
+        "id": case["id"], "outcome": ctx.outcome, "delivered": [list(d) for d in ctx.delivered],
+        "item": monitor.batch_item(case["id"], scn, ctx.trace), "deviations": getattr(pol, "deviations", 0),
+        "pending_at_close": getattr(ctx.loop, "pending_at_close", None), "loop_closed": ctx.loop.is_closed(), "scn": scn,
+    }
+
+
+def cases_suite(seed, nsched=1, lazy=(True,), cache=(True, False)):
+    """Generator: seed selects the scenario (round robin) and the schedule seeds."""
+    from . import suite
+
+    files = suite.scenario_files()
+    name, path, until = files[seed % len(files)]
+    for lz in lazy:
+        for ch in cache:
+            for j in range(nsched):
+                yield {"id": ["suite", name, lz, ch, seed, j], "suite": {"name": name, "path": path, "until": until, "lazy": lz, "cache": ch},
+                       "seed": seed * 31 + j, "policy": {"kind": "random", "early": [0.0, 0.3, 0.7][(seed + j) % 3]}, "scn": {"sims": [], "conns": []}}
+
+
 def _run_chunk(args):
     gen_name, gen_kw, lo, hi = args
     gen = GENERATORS[gen_name]
@@ -102,7 +137,7 @@ def cases_random(seed, fam=None, policy=None, behaviour=None, variants=True, laz
                "behaviour": dict(behaviour or {}), "policy": dict(policy or {})}
 
 
-GENERATORS: Dict[str, Callable] = {"random": cases_random}
+GENERATORS: Dict[str, Callable] = {"random": cases_random, "suite": cases_suite}
 
 
 def run_generated(gen_name, gen_kw, seeds, jobs=None, chunk=25):
